@@ -73,6 +73,13 @@ def one_history(rep, rng, dev, hid):
                                  save_every=rng.choice([1, 2, 3, 5, 1000]),     # the rule must not see the save interval
                                  # ... nor the screening iterations (one recorded value per solve step, not per iteration)
                                  **(dict(include_screening=True, screening_tolerance=1e-2) if screening else {}))
+        if rng.random() < 0.3:
+            # history form: ONE options object used before with the other setting of the adaptive switch (validated, handed to
+            # a solver), then only the switch is changed and the object is used again - every other field must still count
+            opts.adaptive = aform(not adaptive)
+            TDGLSolver(dev, opts, applied_vector_potential=0.4, terminal_currents={"source": 2.0, "drain": -2.0})
+            opts.adaptive = aform(adaptive)
+            cfg["options_reused"] = True
         solver = TDGLSolver(dev, opts, applied_vector_potential=0.4, terminal_currents={"source": 2.0, "drain": -2.0})
         orig_static = TDGLSolver.solve_for_psi_squared
         orig_update = solver.update
